@@ -11,7 +11,7 @@ import numpy as np
 CHARS = list('abcdefghij ')
 
 
-def build_stub_net(path_cpu, n_chars, height=32, seed=0):
+def build_stub_net(path_cpu, n_chars, height=32, seed=0, gain=0.6):
     import torch
     from torch import nn
 
@@ -21,7 +21,7 @@ def build_stub_net(path_cpu, n_chars, height=32, seed=0):
             g = torch.Generator().manual_seed(seed)
             self.conv = nn.Conv2d(3, n_chars + 1, (height, 3), padding=(0, 1))
             with torch.no_grad():
-                self.conv.weight.copy_(torch.randn(self.conv.weight.shape, generator=g) * 0.6)
+                self.conv.weight.copy_(torch.randn(self.conv.weight.shape, generator=g) * gain)
                 b = torch.zeros(n_chars + 1)
                 b[-1] = 6.0           # zero input (padding) -> strong blank
                 self.conv.bias.copy_(b)
@@ -38,10 +38,10 @@ def build_stub_net(path_cpu, n_chars, height=32, seed=0):
     return net
 
 
-def write_ocr_json(dirname, n_chars=None, height=32, seed=0):
+def write_ocr_json(dirname, n_chars=None, height=32, seed=0, gain=0.6):
     chars = CHARS if n_chars is None else CHARS[:n_chars]
     ck = os.path.join(dirname, 'stub.pt')
-    build_stub_net(ck + '.cpu', len(chars), height=height, seed=seed)
+    build_stub_net(ck + '.cpu', len(chars), height=height, seed=seed, gain=gain)
     cfg = dict(line_px_height=height, line_vertical_scale=1.0, checkpoint='stub.pt', characters=chars, net_name='stub')
     p = os.path.join(dirname, 'ocr.json')
     with open(p, 'w', encoding='utf8') as f:
@@ -49,10 +49,10 @@ def write_ocr_json(dirname, n_chars=None, height=32, seed=0):
     return p, chars
 
 
-def make_engine(dirname, batch_size=8, height=32, seed=0):
+def make_engine(dirname, batch_size=8, height=32, seed=0, gain=0.6):
     import torch
     from pero_ocr.ocr_engine.pytorch_ocr_engine import PytorchEngineLineOCR
-    p, chars = write_ocr_json(dirname, height=height, seed=seed)
+    p, chars = write_ocr_json(dirname, height=height, seed=seed, gain=gain)
     return PytorchEngineLineOCR(p, torch.device('cpu'), batch_size=batch_size), chars
 
 
